@@ -239,9 +239,39 @@ def case_history(ctx, kind, ns, fault1, overwrite1, second, third=None, fault2=N
             ctx.oblige("forced_rerun_leaves_complete_valid_set", r3 == 1 and _valid_set(ctx, F, ns, p, opts["compress"]), detail={"opts": opts})
 
 
+def case_same_object(ctx, kind, ns, seq):
+    """history on ONE converter object: process(overwrite=seq[0]), process(overwrite=seq[1]), ... (no interruption)"""
+    import neuropixel
+    F, raw, nc = _mk_original(kind, ns)
+    opts = {"post_check": bool(ctx.bool("post_check")), "compress": bool(ctx.bool("compress")), "delete_original": False}
+    p = ctx.int("p", 0, ns - 1)
+    conv = ctx.call("converter", neuropixel.NP2Converter, FakePath(ORIG), post_check=opts["post_check"], delete_original=False, compress=opts["compress"])
+    conv.init_params(nwindow=1200)
+    have_output = False
+    for k, ow in enumerate(seq):
+        m0 = F.nmut
+        try:
+            r = conv.process(overwrite=(ow == "T"))
+        except Exception as e:  # noqa
+            ctx.oblige("same_object_run_does_not_raise", False, detail={"run": k, "seq": seq, "opts": opts, "exception": repr(e)[:200]})
+            return
+        mut = F.nmut - m0
+        ctx.oblige("original_recoverable_after_every_run", _recoverable(ctx, F, raw, ns, p, kind), detail={"run": k, "seq": seq, "opts": opts})
+        if have_output and ow == "F":
+            ctx.oblige("repeated_run_without_overwrite_does_nothing", r == 0 and mut == 0, detail={"run": k, "seq": seq, "status": r, "mutations": mut, "opts": opts})
+        else:
+            ctx.oblige("run_that_must_convert_reports_one", r == 1, detail={"run": k, "seq": seq, "status": r, "opts": opts})
+        if kind == "NP2.4":
+            ctx.oblige("complete_valid_set_after_every_run", _valid_set(ctx, F, ns, p, opts["compress"]), detail={"run": k, "seq": seq, "opts": opts, "status": r})
+        have_output = True
+
+
 def cases(tier):
     b = bounds(tier)
     cs = []
+    for seq in (["FFT", "FTF"] if tier == "quick" else ["FFT", "FTF", "TFT", "FFFT", "FTT"]):
+        cs.append(Case(f"np24_same_object_{seq}", "case_same_object", {"kind": "NP2.4", "ns": 600, "seq": seq}, timeout_s=2400))
+    cs.append(Case("np21_same_object_FFT", "case_same_object", {"kind": "NP2.1", "ns": 600, "seq": "FFT"}, timeout_s=2400))
     for ns in b["ns"]:
         # uninterrupted histories
         for ow1 in (False, True):
@@ -274,6 +304,7 @@ def twins(tier):
         Twin("already_exists_inverted", m, "            if not probe_path.exists() or overwrite:", "            if probe_path.exists() or overwrite:", un),
         Twin("np21_unlink_before_compress", m, "                cbin_file = self.sr.compress_file()\n                self.sr.close()\n                self.ap_file.unlink()",
              "                self.sr.close()\n                self.ap_file.unlink()\n                cbin_file = self.sr.compress_file()", ["np21_thenNone"] + [f"np21_fault{k}_thenT" for k in range(0, 60, 3)]),
+        Twin("already_exists_sticky", m, "        shank_info = {}\n        self.already_exists = False\n\n        for sh in n_shanks:", "        shank_info = {}\n        self.already_exists = getattr(self, \"already_exists\", False)\n\n        for sh in n_shanks:", ["np24_same_object_FFT"]),
         Twin("rerun_reprocesses", m, "        if self.already_exists:\n            _logger.warning(\n                \"One or more of the sub shank folders already exists, \"\n                \"to force reprocessing set overwrite to True\"\n            )\n            return 0",
              "        if self.already_exists and False:\n            return 0", ["np24_ns600_ow0_thenF"]),
     ]
@@ -283,7 +314,40 @@ def replay(case, params, cex):
     m = cex["model"]
     opts = {"post_check": bool(m.get("post_check")), "compress": bool(m.get("compress")), "delete_original": bool(m.get("delete_original"))}
     kind, ns = params["kind"], params["ns"]
-    fault1, ow1, second, third = params["fault1"], params["overwrite1"], params.get("second"), params.get("third")
+    fault1, ow1, second, third = params.get("fault1"), params.get("overwrite1", False), params.get("second"), params.get("third")
+    full = _replay_text(cex, opts, kind, ns, fault1, ow1, second, third)
+    if "same_object" in case:
+        opts["delete_original"] = False
+        full = _replay_text(cex, opts, kind, ns, fault1, ow1, second, third)
+        return full.split("from symex import realfault")[0] + f"""
+seq = {params['seq']!r}
+conv = neuropixel.NP2Converter(orig, post_check=opts['post_check'], delete_original=False, compress=opts['compress'])
+conv.init_params(nwindow=1200)
+bad = []; have = False
+for k, ow in enumerate(seq):
+    before = listing()
+    try:
+        st = conv.process(overwrite=(ow == 'T'))
+    except Exception as e:
+        bad.append(f'run {{k}} of {{seq}} on the same converter raised {{type(e).__name__}}: {{e}}'); break
+    for sh in getattr(conv, 'shank_info', {{}}).values():
+        for key, f in sh.items():
+            if key.endswith('open_file') and hasattr(f, 'flush') and not f.closed: f.flush()
+    if have and ow == 'F':
+        if st != 0 or listing() != before: bad.append(f'run {{k}}: repeated run without overwrite: status {{st}}, listing changed {{listing() != before}}')
+    elif st != 1: bad.append(f'run {{k}} (overwrite={{ow}}) reports status {{st}} instead of 1')
+    if kind == 'NP2.4' and not all(shank_ok(s) for s in (0, 1)):
+        bad.append(f'run {{k}} (overwrite={{ow}}) does not leave a complete valid set of per-shank files: ' + str([(str(p.relative_to(root)), p.stat().st_size) for p in sorted(root.rglob('*.ap.*bin'))]))
+    if not recoverable(): bad.append(f'original not recoverable after run {{k}}')
+    have = True
+print(bad)
+if bad: reproduced(str(bad))
+not_reproduced()
+"""
+    return full
+
+
+def _replay_text(cex, opts, kind, ns, fault1, ow1, second, third):
     return f"""
 import sys, tempfile, pathlib, shutil, hashlib, builtins, os
 sys.path.insert(0, '/verif')
